@@ -183,7 +183,7 @@ func splitList(vs []string) []string {
 
 func TestPropForwardedRoundTrip(t *testing.T) {
 	sub := stats.NewSub("forwarded-round-trip", "rapid: method, k8s-shaped path with generated segments (escaped '/', '%', '?', blanks, UTF-8, over-escaped safe bytes, empty segments, '.', '..', trailing slash), query (repeated keys, empty values, '+', escapes, malformed pairs), 0-6 end-to-end headers with 1-3 values, prior X-Forwarded-For values, hop-by-hop and Connection-listed headers, body 0 B..1 MiB (content-length or chunked); scripted upstream reply: status 200-599, 0-5 headers (multi-valued, hop-by-hop too), body 0 B..1 MiB in 1-5 flushed chunks; oracle: what the stub received == what was sent (method, decoded path, query as key->ordered values, body, every end-to-end header's value list; hop-by-hop / Authorization / Impersonate-* never as sent; X-Forwarded-For = prior + client address; no unlisted extra header) and what the client received == what the stub sent (status, body, every end-to-end header value in order; extra values only for allow-listed gateway headers); non-trivial = escaped or unusual path bytes, repeated query keys, multi-valued or hop-by-hop headers, or a body > 64 KiB; distinct by FNV-64 of the request/reply description")
-	stats.Check(t, stats.N(1500, 25000), func(t *rapid.T) {
+	stats.Check(t, stats.N(4000, 30000), func(t *rapid.T) {
 		method := rapid.SampledFrom([]string{"GET", "GET", "HEAD", "POST", "PUT", "PATCH", "DELETE", "OPTIONS"}).Draw(t, "method")
 		decPath, wirePath := genPath(t)
 		rawQuery := genQuery(t)
@@ -420,7 +420,7 @@ func firstDiff(a, b []byte) int {
 func TestPropTerminatedRequests(t *testing.T) {
 	sub := stats.NewSub("terminated-requests", "rapid: a termination class (unknown host, cluster without ready endpoint, flow-controlled, refused impersonation, malformed impersonation, unauthenticated, no matching policy) x generated method / path / query / Accept (JSON, none, protobuf) / body; oracle: the body decodes as a meta/v1 Status in the negotiated media type whose code equals the HTTP status; 429 when flow-controlled, 503 with Retry-After when the cluster is not proxied or has no ready endpoint, 403 for refused impersonation, >=400 for malformed impersonation, 401 unauthenticated; no stub upstream logs the request id; non-trivial = all of them; distinct by FNV-64 of (class, request)")
 	classes := []string{"unknown-host", "no-ready-endpoint", "flow-controlled", "refused-impersonation", "malformed-impersonation", "unauthenticated", "no-policy"}
-	stats.Check(t, stats.N(1200, 15000), func(t *rapid.T) {
+	stats.Check(t, stats.N(3000, 20000), func(t *rapid.T) {
 		class := rapid.SampledFrom(classes).Draw(t, "class")
 		method := rapid.SampledFrom([]string{"GET", "POST", "DELETE", "PUT"}).Draw(t, "method")
 		_, wirePath := genPath(t)
